@@ -181,6 +181,10 @@ def e2e_values(tier):
         for low in (0, 1, 2, 0x7fe, 0x7ff, 0x800, 0x801, 0xffe, 0xfff, 0x1000, 0x17ff, 0x1800, 0x1fff, 0x555, 0xaaa, 0x1234):
             vals.add((up << 13 | low) & M32)
     vals.update(range(0, 0x2100, 64 if tier == 'quick' else 8))
+    # every %hi value on both sides of the c.lui operand set (-32..31) and of the 20-bit field, with lows on both sides of the carry
+    for h in list(range(-35, 36)) + [-(1 << 19), -(1 << 19) + 1, (1 << 19) - 2, (1 << 19) - 1]:
+        for low in (0, 1, 0x7ff, 0x800, 0xfff):
+            vals.add(((h << 12) + low) & M32)
     vals.update((0x7ffff7ff, 0x7ffff800, 0x7fffffff, 0x80000000, 0x800007ff, 0x80000800, 0xfffff7ff, 0xfffff800, 0xffffffff, 0x12345678, 0xdeadbeef, 0x08000000, 0x20000ff8))
     return sorted(vals)
 
